@@ -28,11 +28,11 @@ use model::{
 
 /// Confirmed defect F18 (events after `[DONE]` are emitted iff they share its chunk): the pipe
 /// comparison tolerates exactly "equal up to and including the first done frame" and counts it.
-const EXCLUDE_KNOWN_AFTER_DONE: bool = true;
+const EXCLUDE_KNOWN_AFTER_DONE: bool = false;
 /// Confirmed defect (number of U+FFFD produced for a truncated multi-byte sequence of >= 2 bytes
 /// depends on whether it sits at the start of the carry-over buffer): tolerated only for streams
 /// that contain such a sequence, and only when frames are equal after collapsing U+FFFD runs.
-const EXCLUDE_KNOWN_UTF8_RUNS: bool = true;
+const EXCLUDE_KNOWN_UTF8_RUNS: bool = false;
 const SIG_AFTER_DONE: &str = "chunking|events_after_done";
 const SIG_UTF8_RUNS: &str = "chunking|invalid_utf8_replacement_runs";
 
